@@ -1,0 +1,27 @@
+//go:build verif
+
+// Verification hooks (read-only): compiled only with -tags verif.
+
+package socks5
+
+import "fmt"
+
+// VerifConstants returns the package constants as the compiler evaluated them.
+func VerifConstants() map[string]string {
+	m := map[string]string{}
+	put := func(k string, v interface{}) { m[k] = fmt.Sprint(v) }
+	put("version", version)
+	put("rsv", rsv)
+	put("cmdConnect", cmdConnect)
+	put("atypIPv4", atypIPv4)
+	put("atypDomainName", atypDomainName)
+	put("atypIPv6", atypIPv6)
+	put("authNoneRequired", authNoneRequired)
+	put("authUsernamePassword", authUsernamePassword)
+	put("authNoAcceptableMethods", authNoAcceptableMethods)
+	put("requestTimeout", int64(requestTimeout))
+	put("authRFC1929Ver", authRFC1929Ver)
+	put("authRFC1929Success", authRFC1929Success)
+	put("authRFC1929Fail", authRFC1929Fail)
+	return m
+}
